@@ -88,8 +88,14 @@ GeneralCase(cs) ==
      first |-> cs[1], last |-> cs[Len(cs)],
      seg2 |-> [i \in 1 .. Len(cs) - 1 |-> D2(cs[i], cs[i + 1])],
      irrational |-> \E i \in 1 .. Len(cs) - 1 : ~IsSquare(D2(cs[i], cs[i + 1]))]
+\* a long path with IRRATIONAL segment lengths (sqrt 2, sqrt 5, sqrt 10, sqrt 13 in turn) for the general mode: how a long
+\* sum of inexact lengths is accumulated (order, pairwise, chunks) must not disturb the ends
+WaveStep(i) == CASE i % 4 = 0 -> <<1, 1>> [] i % 4 = 1 -> <<2, -1>> [] i % 4 = 2 -> <<1, 3>> [] OTHER -> <<3, -2>>
+RECURSIVE WaveFrom(_, _, _)
+WaveFrom(p, i, n) == IF i > n THEN << p >> ELSE << p >> \o WaveFrom(<<p[1] + WaveStep(i)[1], p[2] + WaveStep(i)[2]>>, i + 1, n)
+WaveLine(n) == WaveFrom(<<0, 0>>, 1, n)
 BigEmit == /\ Len(sel) = 1 /\ sel[1] < 0 /\ sel' = <<sel[1], 0>>
-           /\ PrintT(<<"CASE", ToJson(Case(StairLine(0 - sel[1])))>>)
+           /\ PrintT(<<"CASE", ToJson(IF Mode = "general" THEN GeneralCase(WaveLine(0 - sel[1])) ELSE Case(StairLine(0 - sel[1])))>>)
 NextSmall ==
         /\ sel[1] > 0 /\ Len(sel) < MaxN
         /\ \E j \in 1 .. NG : (Mode = "general" \/ IntLen(GridSeq[sel[Len(sel)]], GridSeq[j])) /\ sel' = Append(sel, j)
